@@ -9,8 +9,10 @@ from harness import simdrv as S
 class Round:
     """what the scheduler saw and decided in tick t"""
 
-    def __init__(self, run, t):
-        r, d = run.r, run.ticks[t]
+    def __init__(self, run, t, d=None):
+        r = run.r
+        self.failed = d is not None           # the round whose execution raised (decisions known, no outcome)
+        d = run.ticks[t] if d is None else d
         self.t = t
         self.d = d
         prev = run.ticks[t - 1] if t > 0 else None
@@ -32,6 +34,21 @@ class Round:
 
 def rounds(run):
     return [Round(run, t) for t in range(len(run.ticks))]
+
+
+def failed_rounds(run):
+    """the round in which the run raised, when the scheduler had already decided: its decisions and what it saw are
+    known (`asg`, `susp`, `states_before`, `pools_before`, `results_in`), its outcome is not (`d['pools'] == []`,
+    `pre` only when the executor had been entered). Monitors use it for rules about the decisions alone."""
+    ep = getattr(run, 'err_pending', None)
+    t = len(run.ticks)
+    if not run.err or not ep or ep.get('asg_tick') != t:
+        return []
+    delivered = run.wl.delivered
+    d = dict(susp=ep.get('susp', []), asg=ep.get('asg', []),
+             pre_states=ep.get('pre_states') if ep.get('pre_tick') == t else None,
+             results=[], pools=[], states=None, new=delivered[t] if t < len(delivered) else [], finished=[])
+    return [Round(run, t, d)]
 
 
 def pipe_of(run, op):
@@ -89,6 +106,10 @@ def run_streams(ctx, mask, monitor, signature, streams, known=None):
                 recipe = S.gen_saturate(rng, kw['saturate'], gen=name)
             elif kw.get('ppool_stuck'):
                 recipe = S.gen_ppool_stuck(rng, gen=name)
+            elif kw.get('twin_preempt'):
+                recipe = S.gen_twin_preempt(rng, gen=name)
+            elif kw.get('failbranch'):
+                recipe = S.gen_failbranch(rng, kw['failbranch'], gen=name)
             elif kw.get('failready'):
                 recipe = S.gen_failready(rng, kw['failready'], gen=name)
             elif kw.get('branches'):
